@@ -286,21 +286,61 @@ def find_triggers(body, vs):
     found = []
     ids = {v.get_id() for v in vs}
 
-    def walk(t):
+    visited = set()
+
+    def walk(t, depth):
+        # markers are written in the antecedent of the quantified implication: a shallow search
+        tid = t.get_id()
+        if tid in visited or depth > 5:
+            return
+        visited.add(tid)
         if z3.is_app(t):
             n = t.decl().name()
             if n in ('T1', 'T2') and any(c.get_id() in ids for c in t.children()):
                 if not any(t.eq(f) for f in found):
                     found.append(t)
                 return
-            for c in t.children():
-                walk(c)
+            if n in ('and', 'or', '=>', 'not', 'if'):
+                for c in t.children():
+                    walk(c, depth + 1)
         elif z3.is_quantifier(t):
             return
-    walk(body)
+    walk(body, 0)
     covered = set()
     for f in found:
         covered |= {c.get_id() for c in f.children() if c.get_id() in ids}
     if found and covered >= ids:
         return [found[0]] if len(found) == 1 else [z3.MultiPattern(*found)]
     return []
+
+
+_HASQ = {}
+
+
+def has_quantifier(t):
+    """DAG search with memo: does the formula contain a quantifier?"""
+    tid = t.get_id()
+    r = _HASQ.get(tid)
+    if r is not None:
+        return r
+    stack = [t]
+    seen = set()
+    found = False
+    while stack:
+        x = stack.pop()
+        xid = x.get_id()
+        if xid in seen:
+            continue
+        seen.add(xid)
+        if z3.is_quantifier(x):
+            found = True
+            break
+        if _HASQ.get(xid) is True:
+            found = True
+            break
+        if z3.is_app(x) and x.num_args() > 0:
+            stack.extend(x.children())
+    if len(_HASQ) > 200000:
+        _HASQ.clear()
+    _HASQ[tid] = found
+    return found
